@@ -209,9 +209,9 @@ func firstFrames(stack string) string {
 }
 
 var tokens = map[string][]string{
-	"srt":  {"\n", "1", "00:00:01,000", " --> ", "x", "-->", " ", "<i>", "</i>", "&", "\r", "00:00:02.5"},
+	"srt":  {"\n", "1", "00:00:01,000", " --> ", "x", "-->", " ", "<i>", "</i>", "&", "\r", "00:00:02.5", "{\\an8}", "}"},
 	"vtt":  {"\n", "WEBVTT", "00:01.000", " --> ", "x", "NOTE ", "STYLE", "Region: id=r", " region:r", "<v a>", "<00:01.500>", " align:left", "1", "::cue {", "}"},
-	"ssa":  {"\n", "[Events]", "Format: Start, End, Text", "Dialogue: ", "0:00:01.00", ",", "x", ":", "[V4 Styles]", "Format: Name, Bold", "Style: ", "[Script Info]", "Title: t"},
+	"ssa":  {"\n", "[Events]", "Format: Start, End, Text", "Dialogue: ", "0:00:01.00", ",", "x", ":", "[V4 Styles]", "Format: Name, Bold", "Style: ", "[Script Info]", "Title: t", "{\\i1}", "}"},
 	"ttml": {"<tt>", "</tt>", "<body><div>", "</div></body>", "<p begin=\"1s\" end=\"2s\">", "</p>", "x", "<p>", "<span>", "</span>", "<br/>", "<p begin=\"00:00:01\" dur=\"1s\">", "<head><styling><style xml:id=\"a\" style=\"b\"/></styling></head>", "<![CDATA[", "<!--"},
 }
 
